@@ -27,6 +27,8 @@ class FnContract:
         self.decreases = None
         self.entry, self.tail = [], []
         self.loops, self.closures = {}, {}
+        self.after = {}
+        self.after_used = set()
         self.attrs = []
         self.external_body = False
         self.used = False
@@ -129,6 +131,8 @@ def parse_contracts(paths):
                     sink = cur_fn.entry
                 elif d == "tail":
                     sink = cur_fn.tail
+                elif d == "after":
+                    sink = cur_fn.after.setdefault(arg if "#" in arg else arg + "#1", [])
                 elif d == "attr":
                     cur_fn.attrs.append(arg)
                     sink = None
@@ -328,9 +332,10 @@ def assemble(unit_cfg, src="/repo/src"):
                     if fc is not None:
                         for a in fc.attrs:
                             out.add("#[%s]\n" % a)
-                        if fc.external_body:
+                        if fc.external_body or fi["key"] in unit_cfg.get("assume", {}):
                             out.add("#[verifier::external_body]\n")
                             side["assumed"].append(fi["key"])
+                            side.setdefault("assumed_why", {})[fi["key"]] = unit_cfg.get("assume", {}).get(fi["key"], "contract assumed (function outside the Verus front end)")
                 elif what == "RO":
                     if fc is not None and fc.ret:
                         out.add("(%s: " % fc.ret)
@@ -363,9 +368,14 @@ def assemble(unit_cfg, src="/repo/src"):
                     if fc is not None and fc.tail:
                         out.add("\n" + "\n".join(fc.tail) + "\n")
                 continue
-            # loop / closure markers
+            # loop / closure / statement markers
             sub, what = tag[1], tag[2]
-            if sub.startswith("L"):
+            if sub.startswith("S"):
+                si = fi["stmts"][int(sub[1:])]
+                if fc is not None and si["key"] in fc.after:
+                    fc.after_used.add(si["key"])
+                    out.add("\n" + "\n".join(fc.after[si["key"]]) + "\n")
+            elif sub.startswith("L"):
                 li = fi["loops"][int(sub[1:])]
                 lc = fc.loops.get(li["key"]) if fc is not None else None
                 if lc is not None:
@@ -466,6 +476,9 @@ def assemble(unit_cfg, src="/repo/src"):
         for ck, cc in fc.closures.items():
             if not cc.used:
                 raise LostAnchor("closure contract %s of fn %s matches no closure" % (ck, k))
+        for ak in fc.after:
+            if ak not in fc.after_used:
+                raise LostAnchor("statement anchor %s of fn %s matches no let statement" % (ak, k))
 
     for r in raws:
         out.add("// ---- raw %s (%s)\n" % (r["name"], r["src"]))
